@@ -21,4 +21,5 @@ def run(ctx):
     fr.r_memory_only(ctx)
     # the statement refers to C01 ("a forest satisfying C01"): C01's structural clauses are re-checked by this check too
     from props import C01
-    C01.rules(ctx)
+    import premises
+    premises.forest(ctx)
